@@ -32,12 +32,19 @@ type pauser struct {
 	labels []string
 	never  chan struct{}
 	hitAt  string
+	watch  *World // when set: the final directory is consumed before every durable step
 }
 
 var pz = &pauser{}
 
 func (p *pauser) hook(label string) {
 	p.mu.Lock()
+	if w := p.watch; w != nil && !p.frozen {
+		// a downstream ingest may look into the final directory between any two steps
+		p.mu.Unlock()
+		w.consumeEarly()
+		p.mu.Lock()
+	}
 	if p.mode == 0 && !p.frozen {
 		p.mu.Unlock()
 		return
@@ -65,6 +72,12 @@ func (p *pauser) arm(mode, target int) {
 		p.never = make(chan struct{}) // must be created inside the bubble
 	}
 	p.mode, p.target, p.n, p.frozen, p.labels, p.hitAt = mode, target, 0, false, nil, ""
+	p.mu.Unlock()
+}
+
+func (p *pauser) setWatch(w *World) {
+	p.mu.Lock()
+	p.watch = w
 	p.mu.Unlock()
 }
 
@@ -288,10 +301,16 @@ func (r *crashRun) crashImage() {
 	w := r.w
 	w.crashes++
 	old := w.cur()
+	oldFinal := w.FinalDir()
 	killStage(w.st)
 	w.gen++
 	if err := copyTree(old, w.cur()); err != nil {
 		r.t.Skip("copy: " + err.Error())
+	}
+	if w.finalBase != "" {
+		if err := copyTree(oldFinal, w.FinalDir()); err != nil {
+			r.t.Skip("copy: " + err.Error())
+		}
 	}
 	r.t.Note("CRASH -> generation %d; image: stage=%v final=%v", w.gen, keysOf(w.StageFiles()), listDir(w.FinalDir()))
 }
@@ -442,6 +461,13 @@ func propCrash(t *vt.T) {
 	psize := t.IntRange("partSize", 1, 4)
 	tmp := &Scenario{t: t, psize: psize}
 	cs := genCrashScript(t, tmp)
+	// final directory on another file system now and then: the move into place then copies
+	// (<target>.lck written in full, staged copy removed, renamed) instead of renaming twice
+	XDevFinal = t.Weighted("finalOnOtherFileSystem", 3, 1) == 1
+	defer func() { XDevFinal = false }()
+	if XDevFinal {
+		t.Class("final-on-other-file-system")
+	}
 	// dry run: the sequence of durable steps of this scenario
 	pz.arm(1, 0)
 	dry := newCrashRun(t, cs, psize)
@@ -469,7 +495,7 @@ func propCrash(t *vt.T) {
 		// yet delivered" are narrow; aim at them explicitly now and then
 		var narrow []int
 		for i, l := range labels {
-			if strings.HasPrefix(l, "stage.process:") || strings.HasPrefix(l, "fileutil.ReadableMD5") || strings.HasPrefix(l, "stage.putFileAway:") || strings.HasPrefix(l, "fileutil.Move:") {
+			if strings.HasPrefix(l, "stage.process:") || strings.HasPrefix(l, "fileutil.ReadableMD5") || strings.HasPrefix(l, "stage.putFileAway:") || strings.HasPrefix(l, "fileutil.Move:") || strings.HasPrefix(l, "fileutil.Copy:") {
 				narrow = append(narrow, i+1)
 			}
 		}
@@ -503,6 +529,7 @@ func propCrash(t *vt.T) {
 			pz.arm(0, 0)
 		}
 		r.w.boot(false)
+		pz.setWatch(r.w)
 		finished := do(func() { r.w.st.Recover() })
 		if fr, _, _, hit2 := pz.state(); fr || !finished {
 			t.Note("second crash during recovery at %q", hit2)
@@ -510,10 +537,12 @@ func propCrash(t *vt.T) {
 			r.crashImage()
 			pz.arm(0, 0)
 			r.w.boot(false)
+			pz.setWatch(r.w)
 			do(func() { r.w.st.Recover() })
 		}
 		pz.arm(0, 0)
 		r.w.Settle()
+		pz.setWatch(nil)
 		r.w.restamp()
 		inside := k > 1 && k < n
 		if inside {
